@@ -38,7 +38,8 @@ D = os.path.join(SPEC, "mutants")
 # sensitivity configs MC_Mutants_dev_<name>.cfg (ClaimedLengthAlloc: one per site family - request, response, frame)
 DEVS = ["SlicePanicReq", "NoColonPanicResp", "ClaimedLengthAlloc_req", "ClaimedLengthAlloc_resp", "ClaimedLengthAlloc_ws",
         "ParseSizePanic", "HostQuotePanic", "ConfRecursionUnbounded", "JsonDepthUnchecked", "Utf8Unwrap", "EmptyInputIndex",
-        "UnicodeNumericSlice", "UnicodeNumericSlice_short"]
+        "UnicodeNumericSlice", "UnicodeNumericSlice_short", "FrameLenOverflow", "LoneQuoteSlice", "KindDepthUnchecked_conf",
+        "KindDepthUnchecked_json"]
 SUP_BUGS = [("MC_ParseSup_bug1.cfg", "BlameLastSent"), ("MC_ParseSup_bug2.cfg", "NoSkipAfterDeath"),
             ("MC_ParseSup_bug3.cfg", "ReapBeforeDrain"), ("MC_ParseSup_bug4.cfg", "BlameAfterSelfExit")]
 MUT_ACTIONS = ["EnumShort", "EnumMut", "Parse"]
@@ -100,6 +101,15 @@ def _route_rejected(ctx, verdict, logname, hexes):
     more = verdict["nrejected"] - len(verdict["rejected"])
     if more > 0:
         ctx.violation("%d further rejected records in %s were not listed" % (more, logname), {"kind": "c03-overflow", "log": logname})
+
+
+def _selftest_failed(ctx, msg):
+    """A self-test of the check's own machinery failed: a tool error (exit 2) - unless the run has already established a
+    violation on the tree, which must still be reported (exit 1)."""
+    if ctx.violations:
+        vlib.log("[C03] " + msg + " (reported after the violations below)")
+    else:
+        raise vlib.ToolError(msg)
 
 
 def run(tier, replay):
@@ -333,17 +343,17 @@ def run(tier, replay):
         r, verdict = f.result()
         ctx.add_tlc("self-test: corrupted log (%s) must be rejected" % name, r)
         if verdict is None or not ok(verdict):
-            raise vlib.ToolError("binding self-test failed: corrupted log %s was not rejected as expected: %s" % (name, json.dumps(verdict)[:600]))
+            _selftest_failed(ctx, "binding self-test failed: corrupted log %s was not rejected as expected: %s" % (name, json.dumps(verdict)[:600]))
         os.remove(pth)
     ctx.add_part("self_test", corrupted_logs_rejected=[t[0] for t in tests])
     st, r, verdict = f_mech.result()
     want = {"ok": 7, "err": 2, "panic": 1, "abort": 1, "stack": 1, "oom": 1, "timeout": 1}
     if st["by_outcome"] != want:
-        raise vlib.ToolError("mechanism self-test: observed %s, expected %s" % (st["by_outcome"], want))
+        _selftest_failed(ctx, "mechanism self-test: observed %s, expected %s" % (st["by_outcome"], want))
     ctx.add_tlc("self-test: stand-in parser that panics/aborts/overflows/exhausts/hangs: log shape must hold, 6 records rejected", r)
     got_ids = sorted(x["rec"]["id"] for x in verdict["rejected"]) if verdict else []
     if verdict is None or verdict["shape"] or got_ids != [1, 3, 5, 7, 9, 11] or any(x["expl"] for x in verdict["rejected"]):
-        raise vlib.ToolError("mechanism self-test: TLC verdict unexpected: %s" % json.dumps(verdict)[:800])
+        _selftest_failed(ctx, "mechanism self-test: TLC verdict unexpected: %s" % json.dumps(verdict)[:800])
     ctx.add_part("mechanism_self_test", outcomes=st["by_outcome"], rejected_ids=got_ids, worker_restarts=st["worker_restarts"])
 
     for lp in logs:
@@ -352,7 +362,7 @@ def run(tier, replay):
     pool.shutdown()
 
     ctx.cov["rule"] = ("inputs = families enumerated by TLC from Mutants.tla (all strings of <=%d alphabet symbols per parser, every prefix of every "
-                       "seed, single-site mutants incl. 16 Unicode-class characters at every position (quick: every 2nd position + all number-like sites), WebSocket length codes, nesting; the second generation config uses one symbol less) + seeded random bytes / "
+                       "seed, every truncation followed by a lone delimiter / unterminated token, single-site mutants incl. 59 length values and 19 Unicode-class characters at every position (quick: every 2nd position + all number-like sites), WebSocket length codes, nesting per container kind, documents of 2..400 small items; the second generation config uses one symbol less) + seeded random bytes / "
                        "token soup / multi-site mutants / deep / big; "
                        "each run as one parser call per delivery (evaluations = calls, every one judged by TLC). distinct_nontrivial = distinct "
                        "(parser, bytes) inputs that are derived from a seed message (prefix, mutant, nest, wslen, rand-mut, deep, big, witness) or were "
